@@ -21,6 +21,7 @@ func init() {
 		Explanation: "R1: in TryLock, Lock and LockWithCtx every path to a possible success exit crosses the success edge (err==nil) of an interface call kvs.Storage.Create, directly or through a private helper all of whose success exits do. " +
 			"R2: the package calls only Create, CasByVersion, Delete, WaitForVersionChange and Get on the storage (never Put/PutMany), and the renewal CAS carries the tenure's version. " +
 			"R3: Storage.Delete is dominated by the true edge of CompareAndSwap(held,1,0) on the same Locker. R4: every storage call uses the Locker's own key field, which is stored only by NewLocker. R5: the held flag is touched only through sync/atomic. " +
+			"L1: the lock record is always written with ExpiresAt = now + lease, the clock read at the time of the write (a record born expired lets a second caller in). S1/S2: the in-memory storage the lockers race on executes every operation as one critical section and lets Create succeed only on the key-absent edge. " +
 			"R6: a tenure issues at most one Delete (a by-key delete repeated after a lost reply removes a successor's record).",
 		NotDecided: "exclusion itself over interleavings and fault placements (needs C02 for the storage and the lease assumption).",
 	})
@@ -472,6 +473,13 @@ func runC01(c *Ctx) {
 		})
 	}
 	c.R.Floor("C01.R5", 5)
+
+	// L1: a record written with a stale or missing lease lapses under its holder and a second caller acquires
+	c.leaseOnWrite(r, "C01.L1")
+	// S: the storage the lock races on is atomic per operation and decides Create on the absent edge (in-memory backend)
+	im := resolveInmemRoles(c)
+	c.inmemCriticalSections(im, "C01.S1")
+	c.inmemClassEdges(im, "C01.S2", "")
 }
 
 // recordArgCell returns the local cell a record argument (load of an alloc) was read from.
@@ -701,50 +709,7 @@ func runC05(c *Ctx) {
 		}
 		return nil
 	}
-	leaseLoad := func(v ssa.Value) bool { return ir.LoadedField(v) == r.leaseF }
-	// L1 lease on every write
-	n := 0
-	for _, fn := range r.all {
-		ir.Instrs(fn, func(in ssa.Instruction) {
-			call := r.storageCall(in, "Create")
-			if call == nil {
-				call = r.storageCall(in, "CasByVersion")
-			}
-			if call == nil {
-				return
-			}
-			n++
-			cell := recordArgCell(call.Call.Args[1])
-			ok := false
-			if cell != nil {
-				for _, st := range fieldStores(cell, r.recExpires) {
-					// cast.Ptr(time.Now().Add(lease))
-					if ptr, isCall := ir.Resolve(st.Val).(*ssa.Call); isCall && len(ptr.Call.Args) == 1 {
-						if add, isAdd := ir.Resolve(ptr.Call.Args[0]).(*ssa.Call); isAdd && ir.CalleeFullName(add) == "(time.Time).Add" {
-							if now, isNow := ir.Resolve(add.Call.Args[0]).(*ssa.Call); isNow && ir.CalleeFullName(now) == "time.Now" && leaseLoad(add.Call.Args[1]) {
-								ok = true
-							}
-						}
-					}
-				}
-			}
-			c.Decide("C05.L1", fn, call.Call.Method.Name()+" writes the record with ExpiresAt = now + lease", in, ok, "the lock record is written without (or with another) expiration than now + lease: a dead holder's record never lapses, or a live holder's record lapses early")
-			// the lease is computed at the time of the write: every way from one attempt to the next re-reads the clock
-			if ok && cell != nil {
-				for _, st := range fieldStores(cell, r.recExpires) {
-					if ptr, isCall := ir.Resolve(st.Val).(*ssa.Call); isCall && len(ptr.Call.Args) == 1 {
-						if add, isAdd := ir.Resolve(ptr.Call.Args[0]).(*ssa.Call); isAdd {
-							if now, isNow := ir.Resolve(add.Call.Args[0]).(*ssa.Call); isNow {
-								w, _ := (ir.Query{Fn: fn, From: in, Block: func(x ssa.Instruction) bool { return x == ssa.Instruction(now) }, Target: func(x ssa.Instruction) bool { return x == in }}).Find()
-								c.Decide("C05.L1", fn, "lease counted from the moment of the write", in, w == nil && now.Parent() == call.Parent(), "the expiration is computed once and reused for later attempts: a caller that waited behind another holder creates a record that is already (nearly) expired, its first renewal finds nothing and the record lapses under the holder")
-							}
-						}
-					}
-				}
-			}
-		})
-	}
-	c.R.Floor("C05.L1", 6)
+	c.leaseOnWrite(r, "C05.L1")
 
 	// L2 arm on acquire
 	for _, fn := range r.lockerFns {
@@ -989,4 +954,53 @@ func (r *lockRoles) periodBelowLease(d ssa.Value) bool {
 	}
 	k, isC := ir.ConstInt(bo.Y)
 	return isC && k >= 2 && ir.LoadedField(bo.X) == r.leaseF
+}
+
+// leaseOnWrite is C05.L1 / C01.L1: every lock record is written with ExpiresAt = now + lease, the clock read at
+// the time of the write.
+func (c *Ctx) leaseOnWrite(r *lockRoles, rule string) {
+	leaseLoad := func(v ssa.Value) bool { return ir.LoadedField(v) == r.leaseF }
+	n := 0
+	for _, fn := range r.all {
+		ir.Instrs(fn, func(in ssa.Instruction) {
+			call := r.storageCall(in, "Create")
+			if call == nil {
+				call = r.storageCall(in, "CasByVersion")
+			}
+			if call == nil {
+				return
+			}
+			n++
+			cell := recordArgCell(call.Call.Args[1])
+			ok := false
+			if cell != nil {
+				for _, st := range fieldStores(cell, r.recExpires) {
+					// cast.Ptr(time.Now().Add(lease))
+					if ptr, isCall := ir.Resolve(st.Val).(*ssa.Call); isCall && len(ptr.Call.Args) == 1 {
+						if add, isAdd := ir.Resolve(ptr.Call.Args[0]).(*ssa.Call); isAdd && ir.CalleeFullName(add) == "(time.Time).Add" {
+							if now, isNow := ir.Resolve(add.Call.Args[0]).(*ssa.Call); isNow && ir.CalleeFullName(now) == "time.Now" && leaseLoad(add.Call.Args[1]) {
+								ok = true
+							}
+						}
+					}
+				}
+			}
+			c.Decide(rule, fn, call.Call.Method.Name()+" writes the record with ExpiresAt = now + lease", in, ok, "the lock record is written without (or with another) expiration than now + lease: a dead holder's record never lapses, or a live holder's record lapses early")
+			// the lease is computed at the time of the write: every way from one attempt to the next re-reads the clock
+			if ok && cell != nil {
+				for _, st := range fieldStores(cell, r.recExpires) {
+					if ptr, isCall := ir.Resolve(st.Val).(*ssa.Call); isCall && len(ptr.Call.Args) == 1 {
+						if add, isAdd := ir.Resolve(ptr.Call.Args[0]).(*ssa.Call); isAdd {
+							if now, isNow := ir.Resolve(add.Call.Args[0]).(*ssa.Call); isNow {
+								w, _ := (ir.Query{Fn: fn, From: in, Block: func(x ssa.Instruction) bool { return x == ssa.Instruction(now) }, Target: func(x ssa.Instruction) bool { return x == in }}).Find()
+								c.Decide(rule, fn, "lease counted from the moment of the write", in, w == nil && now.Parent() == call.Parent(), "the expiration is computed once and reused for later attempts: a caller that waited behind another holder creates a record that is already (nearly) expired, its first renewal finds nothing and the record lapses under the holder")
+							}
+						}
+					}
+				}
+			}
+		})
+	}
+	c.R.Floor(rule, 6)
+
 }
